@@ -5,6 +5,7 @@ import (
 	"math/big"
 	"slices"
 	"strings"
+	"testing"
 
 	"pgregory.net/rapid"
 
@@ -175,8 +176,6 @@ type fataler interface {
 }
 
 // ---- generators ---------------------------------------------------------------------------
-
-var two64 = new(big.Int).Lsh(big.NewInt(1), 64)
 
 // genScalar draws a field value as an integer in [0,p) together with its class.
 func genScalar(t *rapid.T, label string, p *big.Int) (*big.Int, string) {
@@ -387,7 +386,7 @@ type suite interface {
 	Rect(t *rapid.T)
 	Lift(t *rapid.T)
 	Dims(t *rapid.T)
-	KnownBirkhoffSingleNodeInExponent() (present bool, what string)
+	BirkhoffSingleNodeInExponent(t *testing.T)
 }
 
 func (e *env[S, G]) Name() string { return e.name }
